@@ -12,6 +12,7 @@ int main(int argc, char** argv) {
     else if (!strcmp(argv[i], "--seed") && i + 1 < argc) seed = strtoull(argv[++i], NULL, 10);
     else if (!strcmp(argv[i], "--ops") && i + 1 < argc) ops = atol(argv[++i]);
     else if (!strcmp(argv[i], "--maxlive") && i + 1 < argc) maxlive = atoi(argv[++i]);
+    else if (!strcmp(argv[i], "--segs") && i + 1 < argc) { seg_snap_on = 1; seg_snap_every = atoi(argv[++i]); if (seg_snap_every < 1) seg_snap_every = 1; }
     else if (!strcmp(argv[i], "--maxsize") && i + 1 < argc) max_size = (size_t)atol(argv[++i]);
     else if (!strcmp(argv[i], "--profile") && i + 1 < argc) profile = argv[++i];
     else if (!strcmp(argv[i], "--prog") && i + 1 < argc) progpath = argv[++i];
@@ -85,6 +86,7 @@ int main(int argc, char** argv) {
   for (nops = 0; nops < ops; nops++) {
     int r = (int)vf_randn((uint64_t)total);
     if (nops % 500 == 499) op_checkall();
+    else if (seg_snap_on && nops % 100 == 50) emit_segs();
 #if defined(VF_SHIM)
     if (clock_on && vf_randn(3) == 0) vf_clock_advance((long)vf_randn(clock_on));
 #endif
